@@ -393,3 +393,68 @@ func TestVerif_C13_LargeDigestCorpus(t *testing.T) {
 		}
 	})
 }
+
+// The SM3 state-word corpus (blocks after which the chaining value has a 00000000 / ffffffff word) presented through the ZA-level
+// entry points: za is whatever 32 bytes the caller passes, so za = block[:32], msg = block[32:] || tail makes za||msg start with a
+// corpus block. SignZa / VerifyZa must still behave like the digest-level functions on e = SM3(za||msg).
+func TestVerif_C13_StateWordCorpus(t *testing.T) {
+	rec := stats.Get("C13", "state-word-corpus")
+	rec.Rule("corpus vectors/sm3_state_words.json split as za = block[:32], msg = block[32:] || drawn tail (0..120 bytes) x drawn key and nonce stream: SignZa(za,msg) equals the reference signature of e = sm3ref(za||msg); VerifyZa accepts it and rejects it for a changed tail. Non-trivial: every case; distinct by (block, tail, key).")
+	t.Cleanup(stats.FlushAll)
+	b, err := os.ReadFile(filepath.Join(os.Getenv("VERIF_DIR"), "vectors", "sm3_state_words.json"))
+	if err != nil {
+		rec.Skipped("vectors/sm3_state_words.json not readable: " + err.Error())
+		return
+	}
+	var f struct{ Vectors []struct{ Block string } }
+	if err := json.Unmarshal(b, &f); err != nil {
+		t.Fatal(err)
+	}
+	var blocks [][]byte
+	for _, v := range f.Vectors {
+		if blk, _ := hex.DecodeString(v.Block); len(blk) == 64 {
+			blocks = append(blocks, blk)
+		}
+	}
+	if len(blocks) == 0 {
+		rec.Skipped("empty corpus")
+		return
+	}
+	rapid.Check(t, func(t *rapid.T) {
+		r := gen.Rand(t, "seed")
+		blk := blocks[gen.Uniform(t, "block", 0, len(blocks)-1)]
+		za := append([]byte(nil), blk[:32]...)
+		msg := append(append([]byte(nil), blk[32:]...), gen.RandBytes(r, gen.Uniform(t, "tail", 0, 120))...)
+		d, denc, _ := sm2gen.PrivKey(t, "d")
+		if len(denc) != 32 {
+			denc = gen.Pad32(d)
+		}
+		px, py, _ := sm2gen.Pub(d)
+		stream := gen.RandBytes(r, 128)
+		stream[0] &= 0x7f
+		e := sm2ref.E(za, msg)
+		rec.Case(stats.Hash(za, msg, denc), true, "state-word")
+		wr, ws, _, _, werr := sm2ref.Sign(d, e, stream)
+		if werr != nil {
+			return
+		}
+		var r1, s1 []byte
+		var e1 error
+		var ok, bad bool
+		if p := vt.Catch(func() {
+			r1, s1, e1 = sm2.SignZa(newStream(stream), denc, za, msg)
+			ok, _ = sm2.VerifyZa(px, py, za, msg, gen.Pad32(wr), gen.Pad32(ws))
+			bad, _ = sm2.VerifyZa(px, py, za, append(append([]byte(nil), msg...), 1), gen.Pad32(wr), gen.Pad32(ws))
+		}); p != nil {
+			vt.Fail(t, rec, "C13:wrappers:panic", "SignZa/VerifyZa panicked: %v", p)
+			return
+		}
+		if e1 != nil || !bytes.Equal(r1, gen.Pad32(wr)) || !bytes.Equal(s1, gen.Pad32(ws)) {
+			vt.Fail(t, rec, "C13:wrappers:signza", "SignZa(za,msg) differs from the signature of e = SM3(za||msg) when za||msg starts with a block that leaves a special word in the hash state (err=%v)\nza=%x msg=%x\n got (%x,%x)\nwant (%x,%x)", e1, za, msg, r1, s1, wr, ws)
+			return
+		}
+		if !ok || bad {
+			vt.Fail(t, rec, "C13:wrappers:verify", "VerifyZa on such a message: valid signature accepted=%v, with a changed message accepted=%v\nza=%x msg=%x", ok, bad, za, msg)
+		}
+	})
+}
